@@ -290,6 +290,50 @@ def spaces(tier, variant, seed):
         chkq(R, "mpq_set_f", q, val, "set_f(%s)" % val)
         return (kind, al.sgn(v), d, al.nl(abs(v)))
 
+    # the integer argument of the mpz-typed entry points may be a component of the very rational that is written
+    CQ = [Fraction(3, 5), Fraction(-7, 11), Fraction(1, (1 << 128) + 1), Fraction(-(1 << 70) - 1, 3), Fraction((1 << 64) + 1, (1 << 64) + 3), Fraction(5), Fraction(0), Fraction(-1, 1 << 64),
+          Fraction(B * B - 1, 7), Fraction(2, B + 1)]
+
+    def ca_cases(blk):
+        qi = blk
+        for op in ("set_z(q,num)", "set_z(q,den)", "set_num(q,den)", "set_den(q,num)", "get_num(num,q)", "get_num(den,q)", "get_den(num,q)", "get_den(den,q)"):
+            yield (qi, op)
+
+    def ca_one(case, R):
+        qi, op = case
+        e = env()
+        q = e["q"][0]
+        v = CQ[qi]
+        q.set(v.numerator, v.denominator)
+        n0, d0 = v.numerator, v.denominator
+        if op == "set_den(q,num)" and n0 == 0:
+            return None
+        if op == "set_z(q,num)":
+            f_set_z(q.p, q.np); exp = (n0, 1)
+        elif op == "set_z(q,den)":
+            f_set_z(q.p, q.dp); exp = (d0, 1)
+        elif op == "set_num(q,den)":
+            f_set_num(q.p, q.dp); exp = (d0, d0)
+        elif op == "set_den(q,num)":
+            f_set_den(q.p, q.np); exp = (n0, n0)
+        elif op == "get_num(num,q)":
+            f_get_num(q.np, q.p); exp = (n0, d0)
+        elif op == "get_num(den,q)":
+            f_get_num(q.dp, q.p); exp = (n0, n0)
+        elif op == "get_den(num,q)":
+            f_get_den(q.np, q.p); exp = (d0, d0)
+        else:
+            f_get_den(q.dp, q.p); exp = (n0, d0)
+        got = q.raw()
+        m = q.wf(canonical=False)
+        if got != exp or m:
+            R.fail("mpq_" + op.split("(")[0], "%s on %s: components become %x/%x, expected %x/%x %s" % (op, v, got[0], got[1], exp[0], exp[1], m or ""))
+        q.set(0, 1)
+        return (qi, op)
+
+    sp.append(Space("mpq_component_aliasing", list(range(len(CQ))), ca_cases, ca_one,
+                    "mpq_set_z / set_num / set_den / get_num / get_den with the integer argument being the numerator or denominator of the same rational"))
+
     blocks = [("z", lo) for lo in range(0, len(IV), 50)] + [("d", lo) for lo in range(0, len(DV), 50)] + [("f", lo) for lo in range(0, len(IV), 50)]
     sp.append(Space("mpq_conversions", blocks, cv_cases, cv_one,
                     "mpq_set_z, set_ui/si (value exact), set_d (exact, every double of the C11 set incl. subnormals), set_f (exact), set_num/den, get_num/den, swap"))
